@@ -152,6 +152,52 @@ def caller_array_stream(res, names, rng, k):
                 arr = np.array(vals, dtype=float)
 
 
+def mutate_in_place(r):
+    """what a caller may do with a result it owns: extend the outer list, extend / clear inner lists"""
+    try:
+        if isinstance(r, tuple):
+            for part in r:
+                mutate_in_place(part)
+            return
+        if isinstance(r, list):
+            for inner in r:
+                if isinstance(inner, list):
+                    inner.append(-12345.0)
+            r.append([777.0, 888.0])
+    except Exception:  # noqa
+        pass
+
+
+def fresh_results(res, calls):
+    """every call returns a result of its own: `calls` is a list of (api, thunk, description); each thunk is called, its result copied, then
+    modified in place by the 'caller', and after ALL of them the thunks are called again: each must return what it returned the first time
+    (a shared module-level default list would by then carry the caller's modifications)"""
+    import copy
+    first = []
+    for api, thunk, desc in calls:
+        try:
+            r = thunk()
+        except Exception:  # noqa
+            first.append(None)
+            continue
+        first.append(copy.deepcopy(r))
+        mutate_in_place(r)
+    for (api, thunk, desc), want in zip(calls, first):
+        if want is None:
+            continue
+        res.evaluations += 1
+        res.stat('result_owned_by_the_caller')
+        try:
+            again = thunk()
+        except Exception as e:  # noqa
+            res.failures.append({'signature': f'{res.pid}:{api}:fresh-result:raises:{desc}', 'clause': 'a repeated call raised after the caller modified the first result: ' + repr(e)[:80],
+                                 'api': api, 'input': desc})
+            continue
+        if repr(again) != repr(want):
+            res.failures.append({'signature': f'{res.pid}:{api}:fresh-result:{desc}', 'clause': 'the result of a call changed after the caller modified (in place) a result returned earlier',
+                                 'api': api, 'input': desc, 'impl_output': {'first': repr(want)[:200], 'again': repr(again)[:200]}})
+
+
 def micro_stream(res, names, rng, k, pred=None):
     """micro ties: the shape of a tie-rich history of small integers with every point moved by 0, 1, 2 or 3 units of 2^-40 (all
     values and differences still exact in binary64).  Ranges that tie in the integer shape now differ by ~1e-12, far below the
